@@ -55,3 +55,60 @@ def measure_cell(cell, seed):
     res = float(np.max(diff)) / scale
     k = np.unravel_index(int(np.argmax(diff)), diff.shape)
     return {"e": expo100(res)}, {"res": res, "n": [n.real, n.imag], "L": L, "entry": [int(k[0]), int(cols[k[1]])]}
+
+
+# ---------------------------------------------------------------------------------------------
+# Law OmeRgeNs (C29): non-singlet, second and third order
+# ---------------------------------------------------------------------------------------------
+# With f(nf+1) = A(a', L) f(nf), a' = a_s(nf+1), a_s(nf) = a' (1 + d1(L) a' + d2(L) a'^2) (the code's own
+# decoupling table, downwards), d f / d ln mu^2 = -gamma f in both schemes and d a' / d ln mu^2 = -beta0' a'^2 - ...,
+# the orders a'^2 and a'^3 of the RG equation for the scalar non-singlet element read
+#     dA2/dL = beta0' A1 + gamma0 d1 + gamma1(nf) - gamma1(nf+1)
+#     dA3/dL = 2 beta0' A2 + beta1' A1 + gamma0 d2 + 2 d1 gamma1(nf) + gamma2(nf) - gamma2(nf+1)
+#              + A1 (gamma0 d1 + gamma1(nf) - gamma1(nf+1))
+# (gamma = the odd-moment non-singlet anomalous dimension gamma_ns^-, the continuation the element uses).
+
+
+def _gamma_nsm(v, n, nf, k):
+    from ekore.harmonics import cache as c
+
+    if v == "us":
+        import ekore.anomalous_dimensions.unpolarized.space_like as ad
+    elif v == "ps":
+        import ekore.anomalous_dimensions.polarized.space_like as ad
+    else:
+        raise KeyError(v)
+    out = [ad.as1.gamma_ns(n, c.reset()), ad.as2.gamma_nsm(n, nf, c.reset())]
+    if k >= 3:
+        out.append(ad.as3.gamma_nsm(n, nf, c.reset()))
+    return [complex(x) for x in out]
+
+
+def measure_ns_cell(cell, seed):
+    from eko.beta import beta_qcd
+    from eko.couplings import compute_matching_coeffs_down
+
+    rng = E.cell_rng(seed, cell, "C29rgens")
+    v, nf, k = cell["v"], cell["nf"], cell["k"]
+    n = complex(rng.uniform(1.3, 25.0), rng.uniform(-30.0, 30.0)) if cell["j"] % 2 else complex(rng.uniform(1.3, 6.0), rng.uniform(-5.0, 5.0))
+    L = rng.uniform(-2.5, 2.5)
+
+    def tower(LL):
+        t = R.ome_tower(v, "NS", k, nf, LL, n)
+        return np.array([complex(t[i][0, 0]) for i in range(k)])
+
+    h = 0.5  # five-point rule: exact for the polynomials of degree <= 3 in L
+    dA = (-tower(L + 2 * h) + 8 * tower(L + h) - 8 * tower(L - h) + tower(L - 2 * h)) / (12 * h)
+    A = tower(L)
+    dn = compute_matching_coeffs_down("POLE", nf)
+    d1 = sum(dn[1, q] * L**q for q in range(2))
+    d2 = sum(dn[2, q] * L**q for q in range(3))
+    g = _gamma_nsm(v, n, nf, k)
+    gp = _gamma_nsm(v, n, nf + 1, k)
+    b0p, b1p = float(beta_qcd((2, 0), nf + 1)), float(beta_qcd((3, 0), nf + 1))
+    if k == 2:
+        parts = [b0p * A[0], g[0] * d1, g[1], -gp[1]]
+    else:
+        parts = [2 * b0p * A[1], b1p * A[0], g[0] * d2, 2 * d1 * g[1], g[2], -gp[2], A[0] * (g[0] * d1 + g[1] - gp[1])]
+    res = abs(dA[k - 1] - sum(parts)) / max([abs(x) for x in parts] + [1.0])
+    return {"e": expo100(res)}, {"res": float(res), "n": [n.real, n.imag], "L": L, "entry": [0, 0]}
